@@ -268,6 +268,25 @@ def run(tier, seed):
                             elif not m_k or abs(Fraction(m_k.group(1)) - kv) > Fraction(1, 10 ** 6):
                                 what = "k_exp recorded in the emitted components is not the value used"
                                 detail["recorded"] = m_k.group(1) if m_k else None
+                            else:
+                                # the location the factors come from, when they come from a location
+                                used_loc = c["loc_cli"] if int(rows["fsource"]) == 1 else (c["loc_meta"] if int(rows["fsource"]) == 2 else None)
+                                m_l = re.search(r"#META CTE_LOCALIZACION: (\S+)", oc)
+                                if used_loc and (not m_l or m_l.group(1) != used_loc):
+                                    what = "the location recorded in the emitted components is not the one used"
+                                    detail["recorded"] = m_l.group(1) if m_l else None
+                                    detail["used"] = used_loc
+                                for name, key in (("red1", "CTE_RED1"), ("red2", "CTE_RED2")):
+                                    if what is None and ("%s/0" % name) in rows:
+                                        m_r = re.search(r"#META %s: ([^\n]+)" % key, oc)
+                                        want = [rows["%s/%d" % (name, j)] for j in range(3)]
+                                        try:
+                                            got = [Fraction(x.strip()) for x in m_r.group(1).split(",")] if m_r else None
+                                        except ValueError:
+                                            got = None
+                                        if not got or len(got) != 3 or any(abs(g - w) > Fraction(1, 1000) for g, w in zip(got, want)):
+                                            what = "%s recorded in the emitted components is not the factor used" % key
+                                            detail["recorded"] = m_r.group(1) if m_r else None
             else:
                 R.harness_errors.append("unparsable model outcome for cfg%d: %s" % (i, str(pred)[:100]))
             if what is None and pred[0] == "ok" and r["exit"] == 0 and js is not None:
